@@ -15,6 +15,8 @@ IDENTITY_METHODS = {"as_ref", "as_str", "as_deref", "clone", "to_owned", "borrow
 import os as _os
 CANON = _os.environ.get("OG_CANON", "1") != "0"
 
+NUMERIC_TYPES = ("i8", "i16", "i32", "i64", "i128", "isize", "u8", "u16", "u32", "u64", "u128", "usize", "f32", "f64")
+
 IDENTITY_FNS = ("convert::AsRef::as_ref", "clone::Clone::clone", "string::ToString::to_string", "convert::Into::into",
                 "convert::From::from", "borrow::ToOwned::to_owned")
 
@@ -137,7 +139,7 @@ def nf_subst(n, mapping):
     if n[0] == "match":
         return ("match", nf_subst(n[1], mapping), tuple((p, nf_subst(v, mapping)) for p, v in n[2]))
     if n[0] == "call":
-        return ("call", n[1], tuple(nf_subst(a, mapping) for a in n[2]))
+        return ("call", n[1], tuple(nf_subst(a, mapping) for a in n[2])) + tuple(n[3:])
     if n[0] == "tuple":
         return ("tuple", tuple(nf_subst(a, mapping) for a in n[1]))
     if n[0] == "list":
@@ -571,6 +573,9 @@ class NF:
                 short = (f.get("path") or "?").rsplit("::", 1)[-1]
                 if short in ("Some", "Ok") and len(args) == 1:
                     return ("call", short, args)
+            targs = tuple(g for g in (f.get("gargs") or []) if g in NUMERIC_TYPES)
+            if targs and len(targs) == len(f.get("gargs") or []):
+                return ("call", path, args, ("targs", targs))   # explicit numeric type arguments (`parse_facet::<i32>(..)`)
             return ("call", path, args)
         if k == "Struct":
             return ("call", "struct:" + (e["path"].get("path") or "?"),
@@ -1821,7 +1826,7 @@ class CallExpander:
                     if ee.get("k") == "If" and not ee.get("else") and _returned_value(ee["then"]) is not None:
                         folded |= {id(y) for y in H.exprs(ee["then"]) if y.get("k") == "Ret"}
         for x in H.exprs(nb["value"]):
-            if x.get("k") in ("Loop", "Try"):
+            if x.get("k") == "Loop":
                 return None
             if x.get("k") == "Ret" and id(x) not in folded:
                 return None
@@ -1839,6 +1844,8 @@ class CallExpander:
             return n
         if n[0] == "call" and isinstance(n[1], str):
             args = tuple(self.expand(a, depth) for a in n[2])
+            if len(n) > 3:
+                return ("call", n[1], args) + tuple(n[3:])   # explicit type arguments: what it yields depends on them; kept as a call
             s = self.summary(n[1])
             if s is not None and len(s[0]) == len(args):
                 return self.expand(nf_subst(s[1], dict(zip(s[0], args))), depth + 1)
@@ -1975,6 +1982,33 @@ def _canon_hole(p, CE, limit):
         b = _canon_hole(("hole", e[3], tr, ty), CE, limit)
         return [(sp, (("alt", e[1], True),) + sc) for sp, sc in a] + [(sp, (("alt", e[1], False),) + sc) for sp, sc in b]
     return [([p], ())]
+
+
+CONVERSION_STEPS = ("parse", "trim", "trim_start", "trim_end", "ok", "Some", "Ok", "as_ref", "as_str", "as_deref", "to_string", "to_owned",
+                    "map", "and_then", "unwrap_or_default")
+
+
+def numeric_text_type(nf, CE):
+    """T when the value is the decimal text of a number of type T obtained by parsing: `parse_facet::<T>(text)` for a local
+    generic helper whose body does nothing but trim / parse::<T> / to_string (`?` on the way allowed). The text such a value
+    prints is what a hole of type T would print."""
+    n = nf
+    for _ in range(6):
+        if isinstance(n, tuple) and n[0] == "payload":
+            n = n[2]
+        elif isinstance(n, tuple) and n[0] == "call" and len(n) == 3 and str(n[1]).rsplit("::", 1)[-1] in ("Some", "Ok", "to_string", "as_str") and len(n[2]) == 1:
+            n = n[2][0]
+        else:
+            break
+    if not (isinstance(n, tuple) and n[0] == "call" and len(n) > 3 and n[3][0] == "targs" and len(n[3][1]) == 1):
+        return None
+    summ = CE.summary(n[1]) if CE is not None else None
+    if summ is None:
+        return None
+    names, root = spine(summ[1])
+    if "parse" not in names or not all(x in CONVERSION_STEPS for x in names) or root[0] != "param":
+        return None
+    return n[3][1][0]
 
 
 def sanitiser_chain(n):
